@@ -87,7 +87,7 @@ def write_scn_file(path, scns):
         f.write("%d\n" % len(scns))
         for s in scns:
             f.write("%d %d %d %d %d %d %d %d %d %d %d %d %d %d %d %d\n" % (s["scn"], s["api"], s["level"], s["wrap"], s["hist_bits"], s["table"], s["lbuf"],
-                    s["mem"], s["prefill"], s["dictmode"], len(s["dict"]), len(s["inp"]), len(s["calls"]), s["tail_ai"], s["tail_ao"], s["cap"]))
+                    s["mem"], s["prefill"], s["dictmode"], len(s["dict"]), len(s["inp"]), -int(s["meta"]["adaptive"]) if s["meta"].get("adaptive") else len(s["calls"]), s["tail_ai"], s["tail_ao"], s["cap"]))
             f.write(" ".join(map(str, s["dict"])) + "\n")
             f.write(" ".join(map(str, s["inp"])) + "\n")
             f.write(" ".join("%d %d %d %d" % tuple(c) for c in s["calls"]) + "\n")
@@ -121,6 +121,10 @@ def merge(scns, tracefile):
     recs = []
     for s in scns:
         r = by[s["scn"]]
+        if s["meta"].get("adaptive"):     # the schedule the harness chose becomes the scenario's explicit schedule (replay files are self-contained)
+            s["calls"] = [[c["ai"], c["ao"], c["flush"], c["eos"]] for c in r["calls"] + ([r["fault"]] if "fault" in r and "ao" in r["fault"] else [])]
+            s["tail_ai"], s["tail_ao"] = 0, 1 << 16
+            s["meta"] = dict(s["meta"], adaptive=0, was_adaptive=1)
         recs.append({"scn": r["scn"], "api": r["api"], "level": r["level"], "wrap": r["wrap"], "hist_bits": r["hist_bits"], "lbuf": r["lbuf"],
                      "dict": (r["dict"][-32768:] if r["dictmode"] in (1, 2, 6, 7) else []), "inp": r["inp"], "calls": r["calls"], "end": r["end"],
                      "dict_points": [[e["to"], e["ti"]] for e in r["setdict"] if not e.get("wrong_state") and "to" in e and e["ret"] == 0 and e.get("ret2", 0) == 0],
@@ -151,6 +155,36 @@ def deflate_stream_table():
         tlc("gen/GenDeflateStream", env={"VERIF_OUT": tmp}, timeout=1200, xmx="4g")
         os.rename(tmp, cache)
     return cache
+
+def model_coverage(res):
+    """which transitions of the tabulated DeflateStreamOps relation the recorded calls exercised (informational):
+    reachable = closure of the table from (NEW_HDR, not staged) under every environment choice; observed = tuples TraceDeflate reported"""
+    tab = read_ndjson(deflate_stream_table())
+    rel = {}
+    for r in tab:
+        rel[(r["b0"], r["t0"], r["room"], r["inp"], r["flush"], r["eos"], r["lvl0"])] = [tuple(e) for e in r["ends"]]
+    reach_pairs = set()
+    for lvl0 in (0, 1):
+        seen, todo = set(), [("NEW_HDR", 0, 0)]          # (state, staged, eos already announced)
+        while todo:
+            b, t, e0 = todo.pop()
+            if (b, t, e0) in seen: continue
+            seen.add((b, t, e0))
+            for room in (0, 1, 2):
+                for inp in (0, 1):
+                    for fl in (0, 1, 2):
+                        for e in ((1,) if e0 else (0, 1)):
+                            for (b1, t1) in rel.get((b, t, room, inp, fl, e, lvl0), []):
+                                if (b1, t1) == (b, t) and False: continue
+                                reach_pairs.add((b, t, room, inp, fl, e, lvl0, b1, t1)); todo.append((b1, t1, e))
+    obs = set()
+    for r in res.values():
+        for c in r.get("cov", []): obs.add(tuple(c))
+    inmodel = obs & reach_pairs
+    return {"relation_pairs_reachable": len(reach_pairs), "observed_pairs": len(obs), "observed_in_reachable": len(inmodel),
+            "observed_entry_states": len({(c[0], c[1]) for c in obs}), "reachable_entry_states": len({(c[0], c[1]) for c in reach_pairs}),
+            "observed_state_pairs": len({(c[0], c[1], c[7], c[8]) for c in obs}), "reachable_state_pairs": len({(c[0], c[1], c[7], c[8]) for c in reach_pairs}),
+            "_obs": obs, "_reach": reach_pairs}
 
 def judge(module, recs, wd, tag, shards=8, timeout=3000, weight=None):
     """run a trace-validation module over the scenario records, sharded over several TLC JVMs (balanced by input size)"""
@@ -234,3 +268,8 @@ def shape_of(s, rec, seq, rule):
         if multi and (header_calls >= 1 and len(calls) >= 2 and calls[0].get("c", 0) < 400 and calls[0].get("p", 0) == 0 and calls[0].get("ret", 0) == 0):
             return ":wrapper-header-with-resume-state-split-across-calls"
     return ""
+
+def key_coverage(mc):
+    """(entry state, staged, room, input, flush, eos, level0) keys: reachable in the model vs entered by a recorded call"""
+    rk = {t[:7] for t in mc["_reach"]}; ok = {t[:7] for t in mc["_obs"]}
+    return {"reachable_keys": len(rk), "observed_keys": len(ok & rk)}
